@@ -250,3 +250,74 @@ func genC11Logical(g *Gen, thorough bool, emit func(string)) {
 		emit(fmt.Sprintf("ltreeall %d %s %s", k, strings.Join(cols, " "), strings.Join(u.line(nil), " ")))
 	}
 }
+
+// ---------- comparisons through the real typechecker
+//
+// Op:  lcmp <op hex> <t0> <t1> <a> <b> <val0> <val1>
+//      columns c0, c1 of static type I (Int) / NI (NULL|Int) / N (NULL) holding val0, val1; operands a, b are
+//      `c0`, `c1`, `k<int>` (integer literal) or `kn` (NULL literal).  Output: <typed tree> | <result>  or typecheck-panic.
+
+func c11IntColType(s string) octosql.Type {
+	switch s {
+	case "I":
+		return octosql.Int
+	case "N":
+		return octosql.Null
+	case "NI":
+		return octosql.TypeSum(octosql.Int, octosql.Null)
+	}
+	panic("c11: bad int column type " + s)
+}
+
+func c11Operand(s string) logical.Expression {
+	switch {
+	case s == "c0" || s == "c1":
+		return logical.NewVariable(s)
+	case s == "kn":
+		return logical.NewConstant(octosql.NewNull())
+	case s[0] == 'k':
+		n, err := strconv.ParseInt(s[1:], 10, 64)
+		if err != nil {
+			panic(err)
+		}
+		return logical.NewConstant(octosql.NewInt(n))
+	}
+	panic("c11: bad operand " + s)
+}
+
+func driveC11Cmp(toks []string) string {
+	nameb, err := hex.DecodeString(toks[1])
+	if err != nil {
+		panic(err)
+	}
+	colTypes := []octosql.Type{c11IntColType(toks[2]), c11IntColType(toks[3])}
+	u := logical.NewFunctionExpression(string(nameb), []logical.Expression{c11Operand(toks[4]), c11Operand(toks[5])})
+	vals, _ := ParseValues(2, toks[6:])
+	e, ok := c11Typecheck(u, colTypes)
+	if !ok {
+		return "typecheck-panic"
+	}
+	typed := strings.Join(c11EncodePhysical(e, nil), " ")
+	x := c11Materialize(e, []string{"0", "1"})
+	return typed + " | " + c11Eval(x, vals)
+}
+
+func genC11Cmp(emit func(string)) {
+	dom := map[string][]string{"I": {"i1", "i2"}, "NI": {"i1", "i2", "n"}, "N": {"n"}}
+	operands := []string{"c0", "c1", "k1", "k2", "kn"}
+	for _, op := range []string{"<", "<=", "=", "!=", ">=", ">"} {
+		for _, t0 := range []string{"I", "NI", "N"} {
+			for _, t1 := range []string{"I", "NI", "N"} {
+				for _, a := range operands {
+					for _, b := range operands {
+						for _, v0 := range dom[t0] {
+							for _, v1 := range dom[t1] {
+								emit(fmt.Sprintf("lcmp %s %s %s %s %s %s %s", hex.EncodeToString([]byte(op)), t0, t1, a, b, v0, v1))
+							}
+						}
+					}
+				}
+			}
+		}
+	}
+}
